@@ -254,3 +254,12 @@ func trimStack(s string) string {
 	}
 	return strings.Join(out, "\n")
 }
+
+func containsU64(l []uint64, v uint64) bool {
+	for _, x := range l {
+		if x == v {
+			return true
+		}
+	}
+	return false
+}
